@@ -66,6 +66,53 @@ def _rewrite(t, signs, body):
     return t
 
 
+def _split_phi(c, b, d, tr, lits):
+    """`let x = if neg { a - m } else { a + m }; T { inner: x }`: the value is a phi of the branch values; split the
+    row into one row per definition of the merged local, each with the path literals of ITS definition"""
+    if "phi(" not in df.canon(tr, b) or d[0] != "assign":
+        return [(tr, lits)]
+    r = d[1]
+    ops = []
+    if r["k"] == "agg":
+        ops = r["ops"]
+    elif r["k"] == "use":
+        ops = [r["op"]]
+    def chase(l_):
+        for _ in range(6):
+            ds = c.d.whole.get(l_, [])
+            if len(ds) == 1 and ds[0][2][0] == "assign" and ds[0][2][1]["k"] == "use":
+                p_ = mir.op_place(ds[0][2][1]["op"])
+                if p_ is not None and not p_["proj"]:
+                    l_ = p_["l"]
+                    continue
+            break
+        return l_
+    multi = []
+    which = {}
+    for o in ops:
+        p = mir.op_place(o)
+        if p is not None and not p["proj"]:
+            l_ = chase(p["l"])
+            if len(c.d.whole.get(l_, [])) > 1:
+                multi.append(l_)
+                which[id(o)] = l_
+    if len(multi) != 1:
+        return [(tr, lits)]
+    l = multi[0]
+    rows = []
+    for (bi2, si2, d2) in c.d.whole[l]:
+        v = c.prov.rvalue_tree(d2[1]) if d2[0] == "assign" else c.prov.call_tree(d2[1])
+        # rebuild the result with this definition in place of the merged local
+        if r["k"] == "agg":
+            fs = r.get("fields") or [str(i) for i in range(len(ops))]
+            sub = tuple((f, v if which.get(id(o)) == l else c.prov.op_tree(o)) for f, o in zip(fs, ops))
+            t2 = ("agg", r["name"], r.get("variant"), sub)
+        else:
+            t2 = v
+        rows.append((t2, set(lits) | set(c.must_literals(bi2))))
+    return rows
+
+
 def _signs(lits, body):
     """{canon(x): True if x is known negative on this path, False if known non-negative}"""
     out = {}
@@ -123,7 +170,7 @@ def check_ops(rep, prog, rid):
         if suffix in LINEAR or suffix in MULT:
             for (bi, si, d) in c.d.whole.get(0, []):
                 tr = c.prov.rvalue_tree(d[1]) if d[0] == "assign" else c.prov.call_tree(d[1])
-                rows.append((tr, c.must_literals(bi)))
+                rows.extend(_split_phi(c, b, d, tr, c.must_literals(bi)))
         else:
             sts, pv = stores(b)
             for s in sts:
